@@ -1,12 +1,12 @@
 MUTANTS = [
     dict(id="c05-revert-reset-copy", prop="C05", file="eqsig/single.py",
-         old="        self._values = np.array(new_values)\n        self._npts", new="        self._values = new_values\n        self._npts",
+         old="        self._values = _float_array(new_values)", new="        self._values = new_values",
          why="reverts fix: reset_values aliases the caller's array"),
     dict(id="c05-ctor-asarray", prop="C05", file="eqsig/single.py",
-         old="        self._values = np.array(values)\n        self.label", new="        self._values = np.asarray(values)\n        self.label",
+         old="        self._values = _float_array(values)", new="        self._values = np.asarray(values)",
          why="constructor shares float arrays with the caller"),
     dict(id="c05-reset-asarray", prop="C05", file="eqsig/single.py",
-         old="        self._values = np.array(new_values)\n        self._npts", new="        self._values = np.asarray(new_values)\n        self._npts",
+         old="        self._values = _float_array(new_values)", new="        self._values = np.asarray(new_values)",
          why="reset_values coerces lists but still aliases ndarrays"),
     dict(id="c05-remove-poly-inplace", prop="C05", file="eqsig/fns/generic.py",
          old="    return values - y_cor\n\n\ndef gen_ricker", new="    values -= y_cor\n    return values\n\n\ndef gen_ricker",
@@ -88,7 +88,8 @@ MUTANTS += [
              "    else:\n        perc = 0.5 / (n_ref * (a_ref / csr_peaks)[:, np.newaxis] ** (1 / b))\n",
          why="count window > 100 exponents: calc_n_cyc_array_w_power_law inverts the caller's exponent array in place"),
     dict(id="c05-win-ctor-nocopy-30000", prop="C05", file="eqsig/single.py",
-         old="        self._values = np.array(values)\n        self.label", new="        self._values = np.asarray(values) if len(values) > 30000 else np.array(values)\n        self.label",
+         old="        self._values = _float_array(values)",
+         new="        self._values = np.asarray(values) if len(values) > 30000 and isinstance(values, np.ndarray) and values.dtype == float else _float_array(values)",
          why="window > 30 000 samples: the constructor shares long float arrays with the caller"),
     dict(id="c05-win-interp-identity-view-12000", prop="C05", file="eqsig/fns/time_step.py",
          old="    t_db = np.arange(new_npts) / factor\n    acc_interp = np.interp(t_db, t_int, values)\n    return acc_interp, dt / factor",
